@@ -459,7 +459,11 @@ func registerFS(e *Engine) {
 		st.trace = append(st.trace, "fsync "+h.path)
 		if h.node.isDir {
 			h.node.entriesDirty = false
-			delete(st.pending, h.path)
+			// only the directory that is still linked at this path: a handle on a
+			// removed directory flushes nothing of the one created in its place
+			if st.nodes[h.path] == h.node {
+				delete(st.pending, h.path)
+			}
 		} else {
 			h.node.dirty = false
 		}
